@@ -2,6 +2,7 @@
 //! canonical observation logs, in the same format as the extracted Coq model's driver.
 use std::io::{self, BufRead, Write};
 
+mod eng;
 mod gc;
 
 pub struct Script {
@@ -45,8 +46,13 @@ fn main() {
                 gc::run_script(&s, &mut out);
             }
         }
+        Some("eng-run") => {
+            for s in read_scripts(stdin.lock()) {
+                eng::run_script(&s, &mut out);
+            }
+        }
         _ => {
-            eprintln!("usage: impl_run (gc-run)");
+            eprintln!("usage: impl_run (gc-run | eng-run)");
             std::process::exit(2);
         }
     }
